@@ -215,6 +215,10 @@ def _atoms():
     A.append(("stream_start", "A_STREAM_START", 0, 0, 0))
     A.append(("stream_pollw0", "A_STREAM_POLL", 0, 0, 0))
     A.append(("stream_pollw1", "A_STREAM_POLL", 0, 1, 0))
+    for d in (1, 3, 7):
+        A.append(("rot_w%d" % d, "A_ROT_W", 0, 0, d))
+    for d in (1, 2):
+        A.append(("rot_q%d" % d, "A_ROT_Q", 0, 0, d))
     for d in range(4):
         A.append(("clone_s%d" % d, "A_CLONE_S", 0, 0, d))
         A.append(("clone_r%d" % d, "A_CLONE_R", 0, 0, d))
@@ -313,7 +317,7 @@ def seqc(T, cap, labels):
 
 
 def all_sequences(n, atoms=None):
-    atoms = atoms or [a[0] for a in ATOMS]
+    atoms = atoms or [a[0] for a in ATOMS if not a[0].startswith("rot_")]
     import itertools
     for labs in itertools.product(atoms, repeat=n):
         if _legal([ATOM[l] for l in labs]):
@@ -524,6 +528,53 @@ REFILL2 = [["try_send", "try_send", "asend_start0", rk, "try_recv", "try_recv"]
 ]
 
 
+
+# ---- pre-state generalisations and corner-state sequences (added after the third wave of seeded changes) ----
+# close() on a channel one side of which is already gone
+HALFCLOSE = [["try_send", "drop_r", "close_s", "try_send", "clone_s0", "try_send_opt"],
+             ["try_send", "drop_s", "close_r", "try_recv", "clone_r0", "recv_timeout"],
+             ["clone_s1", "drop_r", "close_s", "close_s", "drop_s"],
+             ["arecv_start0", "drop_s", "close_r", "arecv_poll0w0", "close_r"]]
+# waiting list ring wrapped around the end of its allocation (4 places for capacity >= 1, 8 for capacity 0):
+# any history of served waiters leaves the ring at such a position
+RING1 = [["rot_w3", "arecv_start0", "arecv_start1", "drop_s", "arecv_poll0w0", "arecv_poll1w1"],
+         ["try_send", "rot_w3", "asend_start0", "asend_start1", "drop_r", "asend_poll0w0", "asend_poll1w1"],
+         ["rot_w3", "arecv_start0", "arecv_start1", "close_s", "arecv_poll1w1", "arecv_poll0w0"],
+         ["rot_w3", "arecv_start0", "arecv_start1", "arecv_drop1", "try_send", "arecv_poll0w0", "try_send"],
+         ["try_send", "rot_w3", "asend_start0", "asend_start1", "drain", "asend_poll0w0", "asend_poll1w1"],
+         ["try_send", "rot_w3", "asend_start0", "asend_start1", "asend_start2", "asend_drop1", "try_recv", "try_recv", "try_recv"],
+         ["try_send", "rot_w3", "asend_start0", "asend_start1", "close_r", "asend_poll1w1", "asend_poll0w0"]]
+RING0 = [["rot_w7", "arecv_start0", "arecv_start1", "drop_s", "arecv_poll0w0", "arecv_poll1w1"],
+         ["rot_w7", "asend_start0", "asend_start1", "close_r", "asend_poll0w0", "asend_poll1w1"],
+         ["rot_w7", "asend_start0", "asend_start1", "drain", "asend_poll0w0", "asend_poll1w1"],
+         ["rot_w7", "asend_start0", "asend_start1", "drop_r", "asend_poll0w0", "asend_poll1w1"],
+         ["rot_w7", "arecv_start0", "arecv_start1", "close_r", "arecv_poll0w0", "arecv_poll1w1"]]
+# buffer ring wrapped (capacity 2, position 1)
+QRING = [["rot_q1", "try_send", "try_send", "drain"],
+         ["rot_q1", "try_send", "try_send", "try_recv", "try_send", "try_recv", "try_recv", "try_recv"],
+         ["rot_q1", "try_send", "try_send", "close_s", "try_recv"],
+         ["rot_q1", "try_send", "try_send", "drop_s", "try_recv", "try_recv", "try_recv"],
+         ["rot_q1", "try_send", "try_send", "asend_start0", "try_recv", "asend_poll0w0", "drain"]]
+# capacity 2, buffer neither empty nor full while the waiting-list direction flag is stale, then filled by X
+# and blocked on by Y
+STALE_FILL = ["send", "send_timeout", "send_opt_timeout", "try_send", "try_send_opt", "try_send_rt", "try_send_opt_rt", "asend_start0"]
+STALE_BLOCK = ["send_timeout", "send_opt_timeout", "asend_start1"]
+STALE2 = [["try_send", "try_send", "try_recv", x, y, "try_send", "try_recv", "try_recv"] + (["asend_poll1w1", "try_recv"] if y == "asend_start1" else [])
+          for y in STALE_BLOCK for x in STALE_FILL]
+# a non-blocking call meets a parked operation of its own side (must be refused / find nothing) or of the other side
+TRYPARK = [["try_send", "asend_start0", v, "try_recv", "asend_poll0w0", "try_recv", "try_recv"]
+           for v in ("try_send", "try_send_opt", "try_send_rt", "try_send_opt_rt")] + [
+    ["arecv_start0", v, "try_send", "arecv_poll0w0", v] for v in ("try_recv", "try_recv_rt", "drain")] + [
+    ["arecv_start0", v, "arecv_poll0w0", "try_recv"] for v in ("try_send", "try_send_opt", "try_send_rt", "try_send_opt_rt")]
+# the waker is replaced while the operation is parked, then the peer reads / fills the slot (small payload classes keep
+# the value inside the signal word)
+REWAKE = [["asend_start0", "asend_poll0w1", "try_recv", "asend_poll0w1"],
+          ["try_send", "asend_start0", "asend_poll0w1", "try_recv", "try_recv", "asend_poll0w1"],
+          ["arecv_start0", "arecv_poll0w1", "try_send", "arecv_poll0w1"],
+          ["asend_start0", "asend_poll0w1", "asend_poll0w0", "drain", "asend_poll0w0"]]
+SMALLT = ["u8", "u32", "usize", "Pad", "TagS", "TagP", "TagL", "Big"]
+
+
 def zd_handoffs():
     """zero-sized droppable payload on the direct hand-off paths (receiver waits first) and the buffer path"""
     return [blocked("ZD", 0, "RECV", ("PARK", 0, 0, 0), "SEND"), blocked("ZD", 0, "RECV_TO", ("WT_ENTRY", 0, 3, 1), "TRY_SEND_OPT"),
@@ -608,6 +659,7 @@ def _raw(prop, full):
         else:
             L += CL + zd_handoffs()
     elif prop == "C02":
+        L += seqs([RING1[5]], DROPPY, [1]) + seqs([QRING[1], QRING[4]], DROPPY, [2])
         L += seqs(cur("three", "timedq", "refill"), DROPPY, [0, 1])
         L += seqs(REFILL2, DROPPY, [2])
         L += seqs(cur("fifo", "recvq", "basic"), DROPPY, [0, 1, 2] if full else [1])
@@ -618,6 +670,7 @@ def _raw(prop, full):
         if not full:
             L = seqs(cur("three", "timedq"), DROPPY, [0]) + seqs(REFILL2[:4], DROPPY, [2]) + pick(L, 24)
     elif prop == "C03":
+        L += seqs(HALFCLOSE[:2] + [RING1[4], TRYPARK[2]], SEQT, [1]) + seqs([QRING[0], STALE2[1]], SEQT, [2])
         L += B(SEND_OUTERS, RECV_PEERS + KILL_FOR_SENDER + ["OBSERVE"], MIXED, [0, 1])
         L += B(RECV_OUTERS, SEND_PEERS + KILL_FOR_RECEIVER + ["OBSERVE"], MIXED, [0, 1])
         L += async_matrix(MIXED, [0, 1], full)
@@ -629,6 +682,7 @@ def _raw(prop, full):
             L += WW
     elif prop == "C04":
         L += ptr_units()
+        RW = seqs(REWAKE, SMALLT, [0, 1])
         L += B(["SEND", "SEND_TO"], ["RECV", "TRY_RECV", "DRAIN", "ARECV"], ZST + PLAIN, [0, 1])
         L += B(["RECV", "RECV_TO"], ["SEND", "TRY_SEND", "TRY_SEND_OPT", "ASEND"], ZST + PLAIN, [0, 1])
         A = async_matrix(ZST + PLAIN, [0, 1], full, repoll_opts=(0,))
@@ -637,7 +691,7 @@ def _raw(prop, full):
         if not full:
             L = ptr_units() + pick(L[len(ptr_units()):], 20) + pick(SP, 8, 1)
         else:
-            L += SP
+            L += SP + RW
     elif prop == "C05":
         L += B(SEND_OUTERS, RECV_PEERS + KILL_FOR_SENDER, DROPPY, [0, 1])
         L += [timed_alone(T, c, o) for T in DROPPY for c in (0, 1) for o in ("SEND_TO", "SEND_OPT_TO")]
@@ -655,6 +709,7 @@ def _raw(prop, full):
         else:
             L += zd_handoffs()
     elif prop == "C06":
+        L += seqs(RING1[:3] + [RING1[6]], DROPPY, [1]) + seqs(RING0, DROPPY, [0])
         L += B(["RECV"], SEND_PEERS + KILL_FOR_RECEIVER, DROPPY, [0, 1])
         L += B(["SEND"], RECV_PEERS + KILL_FOR_SENDER, DROPPY, [0, 1])
         L += async_matrix(DROPPY, [0, 1], full)
@@ -672,6 +727,7 @@ def _raw(prop, full):
         if not full:
             L = pick(L, 34)
     elif prop == "C08":
+        L += seqs(STALE2, DROPPY, [2])
         L += seqs([["try_send", "try_send", "try_send", "try_recv", "try_send"],
                    ["try_send_opt", "try_send_rt", "send_timeout", "drain", "send"],
                    ["asend_start0", "try_send", "try_recv", "asend_poll0w0", "try_send_opt_rt"],
@@ -687,6 +743,8 @@ def _raw(prop, full):
         else:
             L += ZS + WW
     elif prop == "C09":
+        L += seqs([["try_send", "try_send", "convert_r", "convert_s", "drop_r", "drop_s"],
+                   ["asend_start0", "convert_r", "recv", "asend_poll0w0"]], SEQT, [0, 2])
         L += B(["SEND", "SEND_TO"], ["ARECV"], MIXED, [0, 1])
         L += B(["RECV", "RECV_TO"], ["ASEND"], MIXED, [0, 1])
         A = async_matrix(MIXED, [0, 1], full)
@@ -701,6 +759,8 @@ def _raw(prop, full):
         else:
             L += CA
     elif prop == "C10":
+        L += seqs(HALFCLOSE, DROPPY, [0, 1]) + seqs([RING1[2], RING1[6]], DROPPY, [1]) + seqs([RING0[1], RING0[4]], DROPPY, [0])
+        L += seqs([QRING[2]], DROPPY, [2])
         L += B(SEND_OUTERS, ["CLOSE_S", "CLOSE_R"], DROPPY, [0, 1])
         L += B(RECV_OUTERS, ["CLOSE_S", "CLOSE_R"], DROPPY, [0, 1])
         A = async_matrix(DROPPY, [0, 1], full)
@@ -716,6 +776,8 @@ def _raw(prop, full):
         else:
             L += CA
     elif prop == "C11":
+        L += seqs(RING1[:2], DROPPY, [1]) + seqs([RING0[0], RING0[3]], DROPPY, [0]) + seqs([QRING[3]], DROPPY, [2])
+        L += seqs(HALFCLOSE[:2], DROPPY, [1])
         L += B(SEND_OUTERS, ["DROP_R", "DROP_R_ASYNC"], DROPPY, [0, 1])
         L += B(RECV_OUTERS, ["DROP_S", "DROP_S_ASYNC"], DROPPY, [0, 1])
         A = async_matrix(DROPPY, [0, 1], full)
@@ -730,6 +792,7 @@ def _raw(prop, full):
         else:
             L += CA
     elif prop == "C12":
+        L += seqs(HALFCLOSE, DROPPY, [0, 1])
         la = life_atoms()
         L += seqs([[a] for a in la], DROPPY, [1])
         two = [s for s in all_sequences(2, la)]
@@ -752,6 +815,7 @@ def _raw(prop, full):
         else:
             L += TQ
     elif prop == "C14":
+        L += seqs(TRYPARK, DROPPY, [0, 1])
         L += rt_lockeds(DROPPY, full)
         L += seqs([["try_send", "try_send", "try_send_opt", "try_send_rt", "try_send_opt_rt"],
                    ["try_recv", "try_recv_rt", "drain", "try_send", "try_recv_rt", "drain"],
@@ -764,6 +828,7 @@ def _raw(prop, full):
         if not full:
             L = pick(L, 32)
     elif prop == "C15":
+        L += seqs([RING1[3], RING1[5]], DROPPY, [1])
         L += drop_matrix(DROPPY, [0, 1], full)
         L += [future_drop(T, 0, ss, 2, site, fin, nth) for T in ("u32", "Big", "u8") for ss in (True, False)
               for site, fin, nth in (("ABW_ENTRY", 0, 0), ("ABW_SLEEP", 1, 1))]
@@ -776,6 +841,7 @@ def _raw(prop, full):
         if not full:
             L = pick(L, 48)
     elif prop == "C16":
+        L += seqs(REWAKE, SMALLT, [0, 1])
         L += [repoll_done("TagL", True), repoll_done("TagP", False)]
         L += [async_waiter(T, c, ss, p, rp) for (T, c, ss, p, rp) in [
             ("TagL", 0, True, "TRY_RECV", 1), ("TagP", 1, True, "RECV", 2), ("TagS", 0, True, "CLOSE_R", 2), ("TagL", 1, True, "NOP", 2),
@@ -792,6 +858,8 @@ def _raw(prop, full):
             L += seqs(singles, SEQT, [0, 1, 2, None])
             L += seqs(CURATED, SEQT, [0, 1, 2, None])
             L += seqs([s for s in all_sequences(2)], SEQT, [1])
+            L += seqs(HALFCLOSE + TRYPARK + REWAKE, SEQT, [0, 1]) + seqs(RING1, SEQT, [1]) + seqs(RING0, SEQT, [0])
+            L += seqs(QRING + STALE2, SEQT, [2])
         else:
             k = 0
             SQ = DROPPY + ["u32", "Big"]
@@ -805,6 +873,7 @@ def _raw(prop, full):
             L += seqs(clone_after()[::5], SQ, [1])
             L += seqs(REFILL2[:3], SQ, [2])
     elif prop == "C19":
+        L += seqs([RING1[4]], DROPPY, [1]) + seqs([RING0[2]], DROPPY, [0]) + seqs([QRING[0], QRING[4]], DROPPY, [2])
         L += drain_states(DROPPY, full)
         L += B(["SEND", "SEND_TO", "SEND_OPT_TO"], ["DRAIN"], DROPPY, [0, 1])
         L += [async_waiter(T, c, True, "DRAIN", rp) for (T, c, rp) in (("TagL", 0, 0), ("TagP", 1, 1), ("TagS", 1, 0))]
@@ -828,14 +897,16 @@ def instances(prop, tier):
         # spread of the rest.  Sized so that a check stays far below 15 minutes on a loaded 16-core machine.
         allq = _raw(prop, True)
         must = sorted([i for i in allq if is_must(prop, i.name)], key=lambda i: must_rank(prop, i.name))
-        # at most a few per pattern, so that every pattern is represented
-        chosen, per = [], {}
+        # round-robin over the patterns (every pattern is represented before any gets a second instance),
+        # at most QUICK_PER_PATTERN per pattern
+        buckets = {}
         for i in must:
-            r = must_rank(prop, i.name)
-            if per.get(r, 0) < QUICK_PER_PATTERN:
-                chosen.append(i)
-                per[r] = per.get(r, 0) + 1
-        chosen = chosen[:QUICK_MUST_MAX]
+            buckets.setdefault(must_rank(prop, i.name), []).append(i)
+        chosen = []
+        for rnd in range(QUICK_PER_PATTERN):
+            for r in sorted(buckets):
+                if rnd < len(buckets[r]) and len(chosen) < QUICK_MUST_MAX:
+                    chosen.append(buckets[r][rnd])
         names = set(i.name for i in chosen)
         rest = [i for i in L if i.name not in names]
         L = chosen + pick(rest, max(4, QUICK_N - len(chosen)))
@@ -844,29 +915,43 @@ def instances(prop, tier):
 
 
 QUICK_PER_PATTERN = 3
-QUICK_N = 24
-QUICK_MUST_MAX = 16
+QUICK_N = 28
+QUICK_MUST_MAX = 20
 MUST = {
     "C01": [r"_abw_sleep_.*_n1$", r"^[ab]_zd_", r"asend_start2__asend_drop0"],
     "C02": [r"asend_start2__asend_drop|arecv_start2__arecv_drop", r"__recv_timeout__try_send__arecv_poll", r"_c2_try_send__try_send__asend_start0__(try_recv|recv)__",
-            r"asend_start1__send_timeout__try_recv"],
-    "C03": [r"^w_.*_rs_(recv|try_recv|recv_to|arecv)_(try_send|observe)$", r"^w_.*_ss_(send|try_send)_"],
-    "C04": [r"^u_ptr_", r"^s_(u32|big|pad)_recv_to_wt_entry_(park|wait_entry)"],
-    "C05": [r"^d_.*_sf_st2_.*_f1_", r"__(close_r|drop_r)__asend_drop0", r"^b_zd", r"^s_.*send_opt_to_.*_f1_"],
-    "C06": [r"^b_.*_c1_send.*_arecv$", r"^b_.*_send_.*_drop_r(_async)?$", r"__arecv_start0__asend_poll0w0", r"^b_.*_recv_.*_drop_s(_async)?$"],
+            r"asend_start1__send_timeout__try_recv",
+            r"rot_w3__asend_start0__asend_start1__asend_start2__asend_drop1", r"rot_q1__"],
+    "C03": [r"^w_.*_rs_(recv|try_recv|recv_to|arecv)_(try_send|observe)$", r"^w_.*_ss_(send|try_send)_",
+            r"rot_w3__asend_start0__asend_start1__drain", r"drop_[rs]__close_[sr]"],
+    "C04": [r"^u_ptr_", r"^s_(u32|big|pad)_recv_to_wt_entry_(park|wait_entry)",
+            r"^q_(u8|u32|usize|pad)_.*asend_poll0w1__try_recv"],
+    "C05": [r"^d_.*_sf_st2_.*_f1_", r"__(close_r|drop_r)__asend_drop0", r"^b_zd", r"^s_.*send_opt_to_.*_(wait_entry|wait_precas|park)_f1_"],
+    "C06": [r"^b_.*_c1_send.*_arecv$", r"^b_.*_send_.*_drop_r(_async)?$", r"__arecv_start0__asend_poll0w0", r"^b_.*_recv_.*_drop_s(_async)?$",
+            r"rot_w\d__"],
     "C07": [r"^d_(u32|big|pad)_c0_rf_st2_", r"_n1$", r"register_waker", r"poll_exists"],
-    "C08": [r"^q_(unit|za)_", r"^w_.*try_send$", r"send_timeout__try_recv"],
-    "C09": [r"drop_s__clone_r1__drop_r", r"drop_r__clone_s1__drop_s", r"_s0k\dp\d_arecv$", r"_s0k\dp\d_asend$"],
-    "C10": [r"close_[sr]__clone_[sr][13]"],
-    "C11": [r"drop_s__clone_r[13]|drop_r__clone_s[13]", r"drop_[sr]_async"],
-    "C12": [r"drop_s__clone_r[0-3]|drop_r__clone_s[0-3]", r"close_[sr]__clone_[sr]3", r"drop_[sr]_async"],
+    "C08": [r"^q_(unit|za)_", r"^w_.*try_send$", r"send_timeout__try_recv",
+            r"__try_recv__(send_timeout__send_timeout|send_opt_timeout__send_opt_timeout|asend_start0__asend_start1)__"],
+    "C09": [r"drop_s__clone_r1__drop_r", r"drop_r__clone_s1__drop_s", r"_s0k\dp\d_arecv$", r"_s0k\dp\d_asend$",
+            r"convert_r"],
+    "C10": [r"close_[sr]__clone_[sr][13]",
+            r"drop_[rs]__close_[sr]", r"rot_w\d__.*__close_[sr]__", r"rot_q1__try_send__try_send__close_s"],
+    "C11": [r"drop_s__clone_r[13]|drop_r__clone_s[13]", r"drop_[sr]_async",
+            r"rot_w\d__.*__drop_[sr]__", r"rot_q1__.*__drop_s"],
+    "C12": [r"drop_s__clone_r[0-3]|drop_r__clone_s[0-3]", r"close_[sr]__clone_[sr]3", r"drop_[sr]_async",
+            r"drop_[rs]__close_[sr]", r"convert_r"],
     "C13": [r"recv_timeout__try_send__arecv_poll", r"asend_start1__send_timeout__try_recv", r"^s_.*_(send_opt_to|send_to|recv_to)_wt_entry_(park|wait_precas|timed_precancel)_f1", r"_nop$"],
-    "C14": [r"^n_rt_"],
+    "C14": [r"^n_rt_",
+            r"asend_start0__try_send_(rt|opt_rt)__", r"asend_start0__try_send(_opt)?__try_recv", r"arecv_start0__(try_recv|try_recv_rt|drain)__try_send"],
     "C15": [r"^d_tag[spl]_c0_rf_st3", r"^d_tagp_c0_rf_st2_abw_entry_f0", r"^d_.*_sf_st2_.*f1_n[01]$", r"_c0_.*__(close_r|drop_r|close_s)__a(send|recv)_drop[01]",
-            r"_c0_asend_start0__asend_start1__asend_start2__asend_drop0"],
-    "C16": [r"^ps_.*_sf_register_waker_try_recv", r"^ps_.*_rf_register_waker_try_send", r"^pp_.*_diffw_abw_sleep_f0_n1", r"^pp_.*_diffw_abw_(entry|spin)_f[01]_n0", r"^st_.*_sp[12]", r"^p_done"],
-    "C18": [r"_c2_try_send__try_send__asend_start0__try_recv__"],
-    "C19": [r"^n_drain_"],
+            r"_c0_asend_start0__asend_start1__asend_start2__asend_drop0",
+            r"rot_w3__"],
+    "C16": [r"^ps_.*_sf_register_waker_try_recv", r"^ps_.*_rf_register_waker_try_send", r"^pp_.*_diffw_abw_sleep_f0_n1", r"^pp_.*_diffw_abw_(entry|spin)_f[01]_n0", r"^st_.*_sp[12]", r"^p_done",
+            r"asend_poll0w1__try_recv"],
+    "C18": [r"_c2_try_send__try_send__asend_start0__try_recv__",
+            r"drop_[rs]__close_[sr]", r"rot_w3__arecv_start0__arecv_start1__drop_s", r"rot_q1__.*__try_recv__try_send", r"__try_recv__send_timeout__send_timeout__", r"asend_start0__try_send_rt__", r"_c1_convert_r$"],
+    "C19": [r"^n_drain_",
+            r"rot_w\d__asend_start0__asend_start1__drain", r"rot_q1__try_send__try_send__(drain|asend_start0)"],
 }
 
 
